@@ -19,6 +19,7 @@ InfixOps == {"minus", "plus", "eq", "comma", "semicolon", "arrow", "colondash", 
 PostfixOps == {"user_xf", "user_yf"}
 One(S) == { <<"pre", o, x>> : o \in PrefixOps, x \in S } \cup { <<"post", o, x>> : o \in PostfixOps, x \in S }
           \cup { <<"cmp1", x>> : x \in S } \cup { <<"curly", x>> : x \in S } \cup { <<"list1", x>> : x \in S } \cup { <<"partial", x>> : x \in S }
+          \cup { <<"ptail", x>> : x \in S }            \* [a|x]: x is the TAIL (an atom, a number, an operator term of any priority)
 Two(S, T) == { <<"inf", o, x, y>> : o \in InfixOps, x \in S, y \in T } \cup { <<"cmp2", x, y>> : x \in S, y \in T } \cup { <<"list2", x, y>> : x \in S, y \in T }
 CONSTANT DEPTH       \* 2 | 3 (3: a sampled third level)
 Depth1 == One(Leaf) \cup Two(SmallLeaf, SmallLeaf)
